@@ -494,7 +494,15 @@ func setMapField(field reflect.Value, fieldType reflect.Type, isPtr bool, mapArr
 // setFieldFromString sets a struct field from a string default value.
 func setFieldFromString(field reflect.Value, fieldType reflect.Type, s string) error {
 	if fieldType.Kind() == reflect.Ptr {
-		fieldType = fieldType.Elem()
+		// A pointer field gets a freshly allocated element holding the
+		// default; the kind-specific setters below only apply to the element.
+		elemType := fieldType.Elem()
+		ptr := reflect.New(elemType)
+		if err := setFieldFromString(ptr.Elem(), elemType, s); err != nil {
+			return err
+		}
+		field.Set(ptr)
+		return nil
 	}
 	switch fieldType.Kind() {
 	case reflect.String:
